@@ -22,7 +22,23 @@ class DType:
         self.tz = tz
 
     def __eq__(self, other):
-        return isinstance(other, DType) and (self.code, self.unit) == (other.code, other.unit)
+        # numpy: dtype == x compares with np.dtype(x) for anything that names a dtype (np.float64, 'float64', float, ...)
+        if not isinstance(other, DType):
+            try:
+                code, unit = parse_dtype(None, other, None)
+            except Exception:
+                return False
+            if code in ('M8', 'm8') and isinstance(other, ExtRef):
+                unit = 'generic'
+            other = DType(code, unit)
+        if self.code != other.code:
+            return False
+        if self.code in ('M8', 'm8'):
+            return (self.unit or 'generic') == (other.unit or 'generic')
+        return True
+
+    def __ne__(self, other):
+        return not self.__eq__(other)
 
     def __hash__(self):
         return hash((self.code, self.unit))
